@@ -27,13 +27,17 @@ func main() {
 		prop := fs.String("prop", "", "property id")
 		tier := fs.String("tier", "quick", "quick|thorough")
 		verif := fs.String("verif", "/verif", "verif directory")
+		out := fs.String("out", "", "output directory for .work, evidence, replays (default: verif directory)")
 		fs.Parse(os.Args[2:])
+		if *out == "" {
+			*out = *verif
+		}
 		p := core.Lookup(*prop)
 		if p == nil {
 			fmt.Println("unknown property", *prop)
 			os.Exit(2)
 		}
-		os.Exit(core.ParentMain(p, *tier, *verif))
+		os.Exit(core.ParentMain(p, *tier, *verif, *out))
 	case "child":
 		fs := flag.NewFlagSet("child", flag.ExitOnError)
 		prop := fs.String("prop", "", "")
